@@ -4,7 +4,7 @@ the first-run records."""
 import glob, json, os, re
 HERE = os.path.dirname(os.path.dirname(os.path.abspath(__file__)))
 first = {}
-for f, wave in (('.scratch/results_round1.jsonl', ''), ('.scratch/results_w2_first.jsonl', 'w2'), ('.scratch/results_w3_first.jsonl', 'w3')):
+for f, wave in (('.scratch/results_round1.jsonl', ''), ('.scratch/results_w2_first.jsonl', 'w2'), ('.scratch/results_w3_first.jsonl', 'w3'), ('.scratch/results_w4_first.jsonl', 'w4')):
     p = os.path.join(HERE, f)
     if os.path.exists(p):
         for l in open(p):
@@ -36,7 +36,8 @@ from /verif), every one confirmed by `tools/seedtest.py` in a scratch worktree: 
 tests still pass with it, the author's demonstration exits 0 without and non-zero with it.  Kept under `seeded/<id>/` (patch.diff,
 demo.py, the author's README.md, meta.json).  "first run" is the verdict of the property's own quick check as it was when the change
 arrived (before anything was strengthened in response); "now" lists the checks that report a VIOLATION on the patched tree at the
-final state.  `w2`/`w3` = later waves, whose authors were told what the earlier waves had tried and asked for something different.
+final state.  `w2`/`w3`/`w4` = later waves (w3 and w4 were run *held out*: the checks were frozen and committed before the changes were
+written), whose authors were told what the earlier waves had tried and asked for something different.
 
 | id | what the change does (author's words, truncated) | first run | now caught by | witness monitors | what was added after a miss |
 |---|---|---|---|---|---|
